@@ -17,11 +17,11 @@ ASSUMPTIONS = ['closed forms are those documented in the window docstrings / Har
 PARAM_GRIDS = {
     'kaiser': [dict(beta=b) for b in (0, 0.5, 2, 8.6, 14)],
     'gaussian': [dict(alpha=a) for a in (0.5, 2.5, 4)],
-    'blackman': [dict(alpha=a) for a in (0, 0.16, 0.3)],
+    'blackman': [dict(alpha=a) for a in (0, 0.16, 0.26, 0.3)],
     'poisson': [dict(alpha=a) for a in (0, 0.5, 2, 4)],
     'poisson_hanning': [dict(alpha=a) for a in (0, 0.5, 2, 4)],
     'cauchy': [dict(alpha=a) for a in (0, 3, 5)],
-    'tukey': [dict(r=r) for r in (0, 0.1, 0.25, 0.5, 0.9, 1)],
+    'tukey': [dict(r=r) for r in (0, 1e-6, 0.1, 0.25, 0.5, 0.9, 0.99999, 1 - 1e-7, 1)],     # including values next to the r = 0 / r = 1 special cases
     'chebwin': [dict(attenuation=a) for a in (30, 50, 100)],
     'flattop': [dict(mode=m) for m in ('symmetric', 'periodic')],
     'taylor': [dict(nbar=nb, sll=s) for nb in (2, 4, 6) for s in (-20, -30, -40)],
